@@ -160,12 +160,12 @@ Fixpoint repeat_read {A} (rd : decoder -> res (A * decoder)) (n : nat) (d : deco
   end.
 
 (** `while (thrift_read_field_begin(dec, &type, &field_id)) handle(type, field_id)`; every iteration
-    consumes at least the header byte *)
+    consumes at least the header byte; the fuel is a list used for its length only *)
 Fixpoint parse_loop (handle : N -> Z -> list mval -> decoder -> res (list mval * decoder))
-         (k : nat) (r : list mval) (d : decoder) : res (list mval * decoder) :=
+         (k : list N) (r : list mval) (d : decoder) : res (list mval * decoder) :=
   match k with
-  | O => Fault OutOfFuel
-  | S k' =>
+  | [] => Fault OutOfFuel
+  | _ :: k' =>
     do (h, d1) <- read_field_begin d;
     match h with
     | None => Ok (r, d1)
@@ -223,7 +223,7 @@ Section Parser.
     | O => Fault OutOfFuel
     | S fuel' =>
       do d0 <- read_struct_begin d;
-      do (r1, d1) <- parse_loop (handle_field (parse_struct fuel') (s_fields (tbl sid))) (S (length (d_rest d0))) r d0;
+      do (r1, d1) <- parse_loop (handle_field (parse_struct fuel') (s_fields (tbl sid))) (0%N :: d_rest d0) r d0;
       Ok (r1, read_struct_end d1)
     end.
 
